@@ -153,13 +153,17 @@ let () =
                          last_sig := Some sg end;
                        if rhs = "count" && starts_with "sdyn" !case_kind then incr sdyn_refusals;
                        (match do_step (OAdd (d, Z0)) with
-                        | BAdd r -> if ares_string r <> rhs then mismatch "add" rhs (ares_string r)
+                        | BAdd r ->
+                            (* rejection kinds are recognised by message text (harness addClass); an unrecognised wording
+                               ("other") is accepted as any rejection the model predicts: rewording an error is not a difference *)
+                            let reworded = rhs = "other" && (match r with ROk -> false | _ -> true) in
+                            if ares_string r <> rhs && not reworded then mismatch "add" rhs (ares_string r)
                         | _ -> ()))
               | "B", [_] ->
                   incr nops; pending_name := "Add(unreadable)"; pending_op := (KAdd, rhs = "ok", ([], []));
                   (match do_step OAddBad with
                    | BAdd r -> let m = (match r with RFlush -> "flush" | _ -> "other") in
-                       if rhs <> m then mismatch "add-unreadable" rhs m
+                       if rhs <> m && rhs <> "other" then mismatch "add-unreadable" rhs m
                    | _ -> ())
               | "M", [h; t] ->
                   incr nops; pending_name := "SetMetadata";
